@@ -262,8 +262,14 @@ def run(report):
             continue
         stats["ok"] += 1
         stats["groups_hist"][len(m["groups"])] = stats["groups_hist"].get(len(m["groups"]), 0) + 1
-        want = [{"id": g["id"], "values": g["values"]} for g in m["groups"]]
-        want_bts = sum(1 for g in m["groups"] for i, k in enumerate(t.kinds.get(g["id"], [])) if k == "defbt" and i >= g["nargs"])
+        # a (recipe, arguments) pair named twice on one command line runs once (C01): what is observed is the
+        # first occurrence of each parsed group
+        uniq = []
+        for g in m["groups"]:
+            if not any(u["id"] == g["id"] and u["args"] == g["args"] for u in uniq):
+                uniq.append(g)
+        want = [{"id": g["id"], "values": g["values"]} for g in uniq]
+        want_bts = sum(1 for g in uniq for i, k in enumerate(t.kinds.get(g["id"], [])) if k == "defbt" and i >= g["nargs"])
         if r["rc"] == 0 and r["groups"] == want and r["default_backticks"] != want_bts:
             replay["expected_default_evaluations"] = want_bts
             replay["observed"]["default_backticks"] = r["default_backticks"]
